@@ -99,7 +99,9 @@ func (g *c19G) churnWriter() []c19Req {
 			return `,"metadata":{"type":"doc","n":` + c19PHRound + `,"content":"text of writer ` + c19PHWriter + ` round ` + c19PHRound + `","chat":"c` + c19PHWriter + `"}`
 		}
 	}
-	rel := func() string { return g.oneOf("crel", `"rel"`, `"r`+c19PHWriter+`"`, `"rel"`, `"inv"`, `"superseded_by"`) }
+	rel := func() string {
+		return g.oneOf("crel", `"rel"`, `"r`+c19PHWriter+`"`, `"rel"`, `"inv"`, `"superseded_by"`)
+	}
 	for i, n := 0, 2+g.pick("cwlen", 5); i < n; i++ {
 		switch g.pick("cwkind", 20) {
 		case 0, 1, 2, 3:
@@ -389,10 +391,19 @@ func c19RunChurn(c c19ChurnCase, st *c19ChurnStats) (stable, detail string, harn
 						fail(kind+": a panic escaped the whole handler chain: "+resp.escaped, what+": a panic escaped the whole handler chain: "+resp.escaped)
 						return
 					}
-					if resp.status == 500 && bytes.Equal(bytes.TrimSpace(resp.body), recoveryBody) && c19Logs.count() > panicsBefore {
-						p := c19Logs.last()
-						fail("a valid write sent while event-stream clients connect and hang up was answered through the panic-recovery path: "+c19FirstFrame(p),
-							fmt.Sprintf("%s: answered through the panic-recovery path (status %d): %s", what, resp.status, p))
+					if c19Logs.count() > panicsBefore {
+						// the recovery middleware ran for some request of this phase; its record names method and path
+						p, where := c19Logs.last(), c19Logs.lastWhere()
+						stab := "a valid request sent while other clients write and event-stream clients connect and hang up was answered through the panic-recovery path: " + c19FirstFrame(p)
+						own := r.Method + " " + target
+						if u, perr := url.Parse(target); perr == nil {
+							own = r.Method + " " + u.Path
+						}
+						if resp.status == 500 && bytes.Equal(bytes.TrimSpace(resp.body), recoveryBody) && where == own {
+							fail(stab, fmt.Sprintf("%s: answered through the panic-recovery path (status %d): %s", what, resp.status, p))
+						} else {
+							fail(stab, fmt.Sprintf("a request %s of the concurrent phase (%d writers, %d event-stream clients that connect and hang up) was answered through the panic-recovery path: %s (noticed after %s)", where, len(c.Writers), len(c.Streams), p, what))
+						}
 						return
 					}
 					if v := c19JudgeAnswer(what, resp, body); v != "" {
@@ -547,7 +558,7 @@ func c19RunChurn(c c19ChurnCase, st *c19ChurnStats) (stable, detail string, harn
 	if c19Logs.count() > panicsBefore {
 		p := c19Logs.last()
 		return "a request of the concurrent phase went through the panic-recovery path: " + c19FirstFrame(p),
-			fmt.Sprintf("%d request(s) of the concurrent phase went through the panic-recovery path; last: %s", c19Logs.count()-panicsBefore, p), nil
+			fmt.Sprintf("%d request(s) of the concurrent phase went through the panic-recovery path; last: %s: %s", c19Logs.count()-panicsBefore, c19Logs.lastWhere(), p), nil
 	}
 
 	// ---- afterwards, alone: the server still answers, and a write still works
@@ -690,7 +701,7 @@ func TestVerif_C19_churn(t *testing.T) {
 		return
 	}
 
-	verifkit.RapidSetup(48, 4800)
+	verifkit.RapidSetup(96, 4800)
 	rapid.Check(t, func(rt *rapid.T) {
 		c := c19GenChurn().Draw(rt, "case")
 		st := &c19ChurnStats{}
